@@ -73,6 +73,12 @@ type e2eResult struct {
 	ExitSent   bool
 	FailLines  map[string]string // role -> type of fail line it wrote ("fail"/"FAIL")
 	Hung       []string          // roles that did not return within the watchdog
+	TriggerSeen  bool
+	TriggerShown string
+	ActAtServer  map[string]any // the action as it reached the server (through the relays)
+	CfgAtClient  map[string]any // the configuration as it reached the client
+	ActSent      map[string]any
+	CfgSent      map[string]any
 	Stdout     string
 	ClientOut  string
 	Dropped    int
@@ -136,6 +142,9 @@ type e2eHooks struct {
 	ready func(w *e2eWire, client func() *trzszTransfer, server *trzszTransfer, f *TrzszFilter)
 	// watchdog for each role (default 30 s)
 	watchdog time.Duration
+	// chain: real relays between client and server (nil = direct); uid: the trigger's unique id
+	chain *e2eRelayChain
+	uid   int64
 }
 
 // e2eRun performs one transfer between the real client path and the real server path.
@@ -189,6 +198,20 @@ func e2eRun(o e2eOpts, w *e2eWire, h *e2eHooks) *e2eResult {
 			t.addReceivedData(b, false)
 		} else {
 			res.Dropped += len(b)
+		}
+	}
+	if h.chain != nil {
+		h.chain.attach(w.s2c.deliver, w.c2s.deliver)
+		w.c2s.deliver = h.chain.fromClient
+		w.s2c.deliver = h.chain.fromServer
+		// the server prints its trigger first; the client answers once it has come through the relays
+		trig := fmt.Sprintf("\x1b7\x07::TRZSZ:TRANSFER:%c:%s:%013d:0\r\n", mode, "1.1.8", h.uid)
+		h.chain.fromServer([]byte(trig))
+		res.TriggerSeen = h.chain.waitClient([]byte("::TRZSZ:TRANSFER:"), 5*time.Second)
+		if res.TriggerSeen {
+			h.chain.mu.Lock()
+			res.TriggerShown = h.chain.gotClient.String()
+			h.chain.mu.Unlock()
 		}
 	}
 	if h.ready != nil {
@@ -303,6 +326,22 @@ func e2eRun(o e2eOpts, w *e2eWire, h *e2eHooks) *e2eResult {
 			}
 			w.mu.Unlock()
 		}
+	}
+	w.mu.Lock()
+	for _, m := range w.msgs {
+		if m.Typ == "ACT" && res.ActSent == nil {
+			res.ActSent, _ = m.value()["j"].(map[string]any)
+		}
+		if m.Typ == "CFG" && res.CfgSent == nil {
+			res.CfgSent, _ = m.value()["j"].(map[string]any)
+		}
+	}
+	w.mu.Unlock()
+	if h.chain != nil {
+		h.chain.mu.Lock()
+		res.ActAtServer = e2eFindLine(h.chain.gotServer.Bytes(), "ACT")
+		res.CfgAtClient = e2eFindLine(h.chain.gotClient.Bytes(), "CFG")
+		h.chain.mu.Unlock()
 	}
 	res.Client = nil
 	res.ClientOut = sink.String()
@@ -477,4 +516,21 @@ func e2eCompare(tops []string, names []string, dst string, pre map[string]e2eEnt
 		extra = append(extra, k)
 	}
 	return
+}
+
+// e2eFindLine decodes the first "#TYP:<payload>\n" line of a byte stream as a JSON object.
+func e2eFindLine(stream []byte, typ string) map[string]any {
+	i := bytes.Index(stream, []byte("#"+typ+":"))
+	if i < 0 {
+		return nil
+	}
+	j := bytes.IndexByte(stream[i:], '\n')
+	if j < 0 {
+		return nil
+	}
+	payload := stream[i+len(typ)+2 : i+j]
+	payload = bytes.TrimSuffix(payload, []byte("!"))
+	m := &e2eMsg{Typ: typ, Raw: payload}
+	j2, _ := m.value()["j"].(map[string]any)
+	return j2
 }
